@@ -9,7 +9,7 @@
   Not proved: the iff for whole programs (composition over all statements, overlap check between blocks); this is what
   the correspondence check decides with an independent well-formedness scan over programs with injected faults.
 -/
-import Lc3V.Props.C01
+import Lc3V.Lemmas.C01Core
 set_option linter.unusedSimpArgs false
 namespace Lc3V.C02
 open Lc3V
